@@ -152,7 +152,7 @@ def _chunk(args):
                               {"src": src, "dst": dst, "p": pname(p), "q": pname(q), "m": a, "what": "value"}))
         # comparisons across scales (separated temperatures)
         for ma in (-40, 0, 100, 300.5):
-            for mb in (-39, 1, 250):
+            for mb in (-39, 0, 1, 250):
                 w.restore()
                 qa, qb = ma * su, mb * du
                 ka = to_kelvin(src, frac(ma) * pv)
